@@ -165,8 +165,9 @@ def _cli_report(year, base, r):
         for dep, ws in list(r.need_inputs.items()) + list(r.blocked.items()):
             ok = False
             for line in head.split('\n'):
-                if line.startswith(dep + ' (needed by: '):
-                    ok = all(w in line for w in ws)
+                # an input and a line may share a name (1040.first_name): any of the entries may be the one
+                if line.startswith(dep + ' (needed by: ') and all(w in line for w in ws):
+                    ok = True
             if not ok:
                 errs.append(('cli-report', f'{dep} (needed by {sorted(ws)[:3]}) is not named in the failure report'))
     return errs
